@@ -1867,11 +1867,8 @@ class SubclassValue(Value):
                     self_tobj = self.typ.get_type_object(ctx)
                     return self_tobj.can_assign(self, TypedValue(other.val), ctx)
                 elif isinstance(self.typ, TypeVarValue):
-                    return {
-                        self.typ.typevar: [
-                            LowerBound(self.typ.typevar, TypedValue(other.val))
-                        ]
-                    }
+                    # Also applies the declared bound or constraints of the type variable.
+                    return self.typ.can_assign(TypedValue(other.val), ctx)
         elif isinstance(other, TypedValue):
             if other.typ is type:
                 return {}
